@@ -28,7 +28,7 @@ type c03Sc struct {
 	Envs []c03Env `json:"envs"`
 	// TwoLoaders: the templates come from a first loader; a second loader has OTHER content under the same names
 	// (registration order decides, whatever the engine does internally to find them)
-	TwoLoaders bool `json:"two_loaders,omitempty"`
+	TwoLoaders int `json:"two_loaders,omitempty"` // 1: two ArrayLoaders; 2: one FileSystemLoader with two search paths on the simulated disk
 }
 
 type propC03 struct{}
@@ -135,7 +135,7 @@ func genC03Program(r *R, ex map[string]bool) *Program {
 		return pick(r, maps)
 	}
 	seg := func() string {
-		switch r.N(25) {
+		switch r.N(26) {
 		case 0, 1:
 			return "{% for k, v in " + anyMap() + " %}{{ k }}={{ v|json_encode }}|{{ loop.index }};{% endfor %}"
 		case 2:
@@ -219,6 +219,9 @@ func genC03Program(r *R, ex map[string]bool) *Program {
 		case 24:
 			// fields promoted from an embedded struct, looked up more than once
 			return "{{ acct.Nick }}{{ acct.Rank }}|{{ acct.Plan }}|{{ acct.Profile.Nick }}{{ acct." + pick(r, []string{"Nick", "Rank", "Plan"}) + " }}{{ acct|json_encode }}"
+		case 25:
+			// debugging aids print whole values: maps inside them in a fixed order too
+			return "{{ dump(" + pick(r, []string{"m1", "m2", "si", "nm", "zam", "{'b': 1, 'a': 2, 'c': [1, {'z': 1, 'y': 2}]}", "rows", "tie", "l2"}) + ") }}"
 		case 22:
 			// the same name bound twice in one construct: which binding wins must be decided by the source text
 			return pick(r, []string{
@@ -255,7 +258,7 @@ func genC03Program(r *R, ex map[string]bool) *Program {
 func (propC03) Gen(seed uint64, ex map[string]bool) interface{} {
 	r := newR(seed)
 	sc := &c03Sc{Prog: genC03Program(r, ex)}
-	sc.TwoLoaders = r.P(20)
+	sc.TwoLoaders = pick(r, []int{0, 0, 0, 0, 0, 0, 0, 1, 1, 2})
 	base := c03Env{Dim: "baseline", MapOrder: simrt.OrderSorted, Clock: 1_700_000_000e9, Pool: simrt.PoolLIFO, Seed: simrt.Mix(seed, 9), Addr: -1}
 	sc.Envs = append(sc.Envs, base)
 	add := func(dim string, f func(e *c03Env)) {
@@ -294,7 +297,7 @@ func (propC03) Gen(seed uint64, ex map[string]bool) interface{} {
 // c03Render renders the program twice on one engine in one environment (the second render runs on recycled
 // objects and warm process-wide caches) and returns both observations. The renders run as a task of the seeded
 // scheduler, so goroutines the library might start are interleaved by the environment's seed, not by the machine.
-func c03Render(p *Program, env c03Env, twoLoaders bool) (Obs, Obs, *simrt.World) {
+func c03Render(p *Program, env c03Env, twoLoaders int) (Obs, Obs, *simrt.World) {
 	w := simrt.Begin(simrt.Config{Seed: env.Seed, PoolPolicy: env.Pool, MapOrder: env.MapOrder, MapRot: env.Rot, ClockStart: env.Clock, ClockStep: 1e6, AddrReusePct: env.Addr, PreemptDen: 3})
 	defer simrt.End()
 	twig.SetDebugWriter(io.Discard)
@@ -303,7 +306,16 @@ func c03Render(p *Program, env c03Env, twoLoaders bool) (Obs, Obs, *simrt.World)
 	e := twig.New()
 	installSandbox(e)
 	installGlobals(e)
-	if twoLoaders {
+	if twoLoaders == 2 {
+		// the same, through the search paths of one FileSystemLoader (a duplicate path entry included)
+		w.UseSimFS()
+		for _, t := range p.Templates {
+			w.FSWrite("first/"+t.Name+".twig", []byte(t.Src()), w.NowNS())
+			w.FSWrite("second/"+t.Name+".twig", []byte("SHADOWED-BY-AN-EARLIER-PATH "+t.Name), w.NowNS())
+			w.FSWrite("third/"+t.Name+".twig", []byte("SHADOWED-BY-AN-EARLIER-PATH-3 "+t.Name), w.NowNS())
+		}
+		e.RegisterLoader(twig.NewFileSystemLoader([]string{"first", "second", "first", "third"}))
+	} else if twoLoaders == 1 {
 		first, second := map[string]string{}, map[string]string{}
 		for _, t := range p.Templates {
 			first[t.Name] = t.Src()
